@@ -263,7 +263,10 @@ func main() {
 	if *strOut != "" {
 		txt, err := translateStr(*repo)
 		if err != nil {
-			fail("%v", err)
+			// a form outside the translator's fragment: the generated module does not compile, so the tie
+			// `Tie.translated_is_model` is reported as broken while the other facts and the suites still run
+			txt = "/- GENERATED by factgen (translate.go): the translator refused the current utils/str.go\n   " + err.Error() + " -/\n" +
+				"example : translator_refused_the_current_source = 0 := rfl\n"
 		}
 		if err := os.WriteFile(*strOut, []byte(txt), 0o644); err != nil {
 			fail("write %s: %v", *strOut, err)
